@@ -385,6 +385,11 @@ type lockStep struct {
 	PreMs   int    `json:"pre_ms"`
 	HoldMs  int    `json:"hold_ms"`
 	Abandon bool   `json:"abandon,omitempty"` // stop renewing and never unlock (a crashed holder)
+	// Ctx: lifetime of the context passed to Lock - "" = lives on; "cancel-after-lock" =
+	// cancelled as soon as Lock has returned (a request-scoped context); "deadline" = expires
+	// 300 ms after Lock was called. The holder itself stays alive and connected and unlocks
+	// with a fresh context after HoldMs.
+	Ctx string `json:"lock_ctx,omitempty"`
 }
 
 type lockProgramme struct {
@@ -461,6 +466,7 @@ type holdEpisode struct {
 	EndCall   int64  `json:"unlock_call_ns"` // Unlock invoked (or the moment the holder was cut off)
 	Abandoned bool   `json:"abandoned,omitempty"`
 	UnlockErr string `json:"unlock_err,omitempty"`
+	LockCtx   string `json:"lock_ctx,omitempty"`
 	// CertainEnd = min(EndCall, invoke time of the last successful
 	// Acquire/Renew of this episode + TTL): up to here the instance holds the
 	// lease no matter how the machine scheduled the renewals. For a holder
@@ -469,10 +475,20 @@ type holdEpisode struct {
 	CertainEnd int64 `json:"certain_end_ns"`
 }
 
-func genLockProgramme(r *rand.Rand, forceCutOff bool) lockProgramme {
+func genLockProgramme(r *rand.Rand, forceCutOff bool, forceLongLive ...bool) lockProgramme {
 	p := lockProgramme{TTLs: 1}
 	n := 2 + r.Intn(2)
 	keys := []string{"issue_cert_example.com", "issue_cert_example.com.lock"}
+	if len(forceLongLive) > 0 && forceLongLive[0] {
+		// a live, connected holder keeps the lock for several lease periods after the context
+		// it passed to Lock has ended; a second instance wants the same lock all the time
+		mode := []string{"cancel-after-lock", "deadline"}[r.Intn(2)]
+		p.Insts = [][]lockStep{
+			{{Key: keys[0], HoldMs: 2200 + r.Intn(500), Ctx: mode}},
+			{{Key: keys[0], PreMs: 100 + r.Intn(200), HoldMs: 30}},
+		}
+		return p
+	}
 	for i := 0; i < n; i++ {
 		steps := make([]lockStep, 1+r.Intn(2))
 		for j := range steps {
@@ -481,6 +497,10 @@ func genLockProgramme(r *rand.Rand, forceCutOff bool) lockProgramme {
 				k = keys[1]
 			}
 			steps[j] = lockStep{Key: k, PreMs: r.Intn(60), HoldMs: 30 + r.Intn(270)}
+			if r.Intn(5) == 0 {
+				steps[j].Ctx = []string{"cancel-after-lock", "deadline"}[r.Intn(2)]
+				steps[j].HoldMs = 1200 + r.Intn(1200)
+			}
 		}
 		if r.Intn(4) == 0 || (forceCutOff && i == 0) {
 			if forceCutOff && i == 0 {
@@ -502,6 +522,9 @@ type lockOutcome struct {
 	conflicts int64
 	timedOut  bool
 	lockErr   string
+	// maxStallNs: longest gap a 20 ms heartbeat of the harness observed while the programme
+	// ran (a measure of how badly the machine starved this process' timers and goroutines)
+	maxStallNs int64
 }
 
 func runLockProgramme(p lockProgramme) lockOutcome {
@@ -524,8 +547,23 @@ func runLockProgramme(p lockProgramme) lockOutcome {
 			ctx := context.Background()
 			for _, s := range steps {
 				time.Sleep(time.Duration(s.PreMs) * time.Millisecond)
-				ep := holdEpisode{Inst: i, Key: s.Key, LockCall: int64(time.Since(start))}
-				if err := st.Lock(ctx, s.Key); err != nil {
+				ep := holdEpisode{Inst: i, Key: s.Key, LockCall: int64(time.Since(start)), LockCtx: s.Ctx}
+				lockCtx, cancel := ctx, context.CancelFunc(func() {})
+				switch s.Ctx {
+				case "cancel-after-lock":
+					lockCtx, cancel = context.WithCancel(ctx)
+				case "deadline":
+					lockCtx, cancel = context.WithTimeout(ctx, 300*time.Millisecond)
+				}
+				err := st.Lock(lockCtx, s.Key)
+				if s.Ctx == "cancel-after-lock" {
+					cancel()
+				}
+				defer cancel()
+				if err != nil {
+					if s.Ctx == "deadline" && errors.Is(err, context.DeadlineExceeded) {
+						continue // did not get the lock within its own deadline: no episode
+					}
 					lockErr.Store(fmt.Sprintf("instance %d Lock(%q): %v", i, s.Key, err))
 					return
 				}
@@ -549,12 +587,31 @@ func runLockProgramme(p lockProgramme) lockOutcome {
 	}
 	done := make(chan struct{})
 	go func() { wg.Wait(); close(done) }()
+	var maxStall atomic.Int64
+	go func() {
+		tk := time.NewTicker(20 * time.Millisecond)
+		defer tk.Stop()
+		last := time.Now()
+		for {
+			select {
+			case <-done:
+				return
+			case <-tk.C:
+				now := time.Now()
+				if g := int64(now.Sub(last)); g > maxStall.Load() {
+					maxStall.Store(g)
+				}
+				last = now
+			}
+		}
+	}()
 	select {
 	case <-done:
 	case <-time.After(90 * time.Second):
 		out.timedOut = true
 		return out
 	}
+	out.maxStallNs = maxStall.Load()
 	if v := lockErr.Load(); v != nil {
 		out.lockErr = v.(string)
 	}
@@ -607,6 +664,12 @@ func checkLockOutcome(t failT, rec *ev.Recorder, o lockOutcome) {
 	if abandon {
 		labels = append(labels, "lock-programme:holder-cut-off(lease-expiry)")
 	}
+	for _, ep := range o.episodes {
+		if ep.LockCtx != "" && ep.EndCall-ep.LockRet > int64(time.Duration(o.prog.TTLs)*time.Second) {
+			labels = append(labels, "lock-programme:live-holder-outlasts-lock-context-and-ttl")
+			break
+		}
+	}
 	if o.conflicts > 0 {
 		labels = append(labels, "lock-programme:contended")
 	}
@@ -622,6 +685,31 @@ func checkLockOutcome(t failT, rec *ev.Recorder, o lockOutcome) {
 		for _, b := range o.episodes[i+1:] {
 			if a.Inst == b.Inst || a.Key != b.Key {
 				continue
+			}
+			// a live, connected holder (never cut off, every lease call of it succeeded) that has
+			// not unlocked yet keeps the lock however long it holds it and whatever became of the
+			// context it passed to Lock: the renewal is the storage's job. Judged only when the
+			// harness' own 20 ms heartbeat never stalled for a renewal period (TTL/4) - otherwise
+			// late renewals are the machine's doing.
+			if !a.Abandoned && b.LockRet > a.LockRet && b.LockRet < a.EndCall && a.CertainEnd < b.LockRet {
+				ttl := int64(time.Duration(o.prog.TTLs) * time.Second)
+				holderFailed := false
+				for _, e := range o.events {
+					if e.Inst == a.Inst && e.Err != "" && e.Op == "renew" && e.Invoke >= a.LockRet && e.Invoke <= a.EndCall {
+						holderFailed = true
+					}
+				}
+				switch {
+				case holderFailed:
+				case o.maxStallNs >= ttl/4:
+					rec.Inconclusive("machine-stalled-during-lock-programme")
+				default:
+					doc["overlap"] = []holdEpisode{a, b}
+					doc["max_heartbeat_gap_ms"] = float64(o.maxStallNs) / 1e6
+					rec.Fail(t, "lock-lost-by-live-holder", doc,
+						"instance %d obtained lock %q at %.1f ms although instance %d, alive and connected, holds it since %.1f ms and only unlocked at %.1f ms (context passed to Lock: %q; last successful lease call + TTL = %.1f ms; longest harness heartbeat gap %.1f ms)",
+						b.Inst, b.Key, float64(b.LockRet)/1e6, a.Inst, float64(a.LockRet)/1e6, float64(a.EndCall)/1e6, a.LockCtx, float64(a.CertainEnd)/1e6, float64(o.maxStallNs)/1e6)
+				}
 			}
 			// a.LockRet <= b.LockRet; a certainly still holds at a.CertainEnd
 			if a.CertainEnd >= a.LockRet && b.LockRet <= a.CertainEnd {
@@ -679,7 +767,8 @@ func TestC49(t *testing.T) {
 	rng := rand.New(rand.NewSource(ev.ShardSeed()))
 	progs := make([]lockProgramme, nProg)
 	for i := range progs {
-		progs[i] = genLockProgramme(rng, i == 0) // every run has >= 1 holder that is cut off
+		// every run has >= 1 holder that is cut off and >= 1 live holder that outlasts its Lock context
+		progs[i] = genLockProgramme(rng, i == 0, i == 1)
 	}
 	outs := make([]lockOutcome, nProg)
 	var wg sync.WaitGroup
